@@ -932,9 +932,6 @@ func c13pair(o *oracleRun, a, b string, ra, rb int, op string) J {
 				return violation(in, "integer operands, result fits int64, but the result is not that integer", ex)
 			}
 		} else if isInt {
-			if o.isKnown("D12") {
-				return nil
-			}
 			ex["exact"] = exact.String()
 			return violation(in, "an integer result that does not fit was wrapped into a wrong integer", ex)
 		}
